@@ -56,6 +56,8 @@ KIND_NAMES = {
     "lit": ["mode"],
     "bounded": ["level"],
     "validated": ["even"],
+    "tup2": ["pair"],      # Tuple[int, str]      (only in profiles that list it: C03)
+    "tupvar": ["series"],  # Tuple[int, ...]
     "list_int": ["nums", "values"],
     "dict_int": ["scores", "weights"],
     "set_int": ["tags", "marks"],
@@ -143,6 +145,8 @@ GOOD_FNS = {
     "lit": ["a", "b", "ident"],
     "bounded": ["inc", "zero", "ident", "dbl"],
     "validated": ["dbl", "zero", "ident", "two"],
+    "tup2": ["ident", "tup_copy"],
+    "tupvar": ["ident", "tup_copy", "tup_more"],
     "list_int": ["rev", "app9", "empty_list", "ident"],
     "list_optint": ["rev", "app9", "empty_list", "ident"],
     "dict_int": ["withz", "empty_dict", "ident"],
@@ -160,6 +164,8 @@ BAD_FNS = {
     "lit": ["zero", "bang"],
     "bounded": ["neg_one", "tostr"],
     "validated": ["inc_odd", "tostr"],
+    "tup2": ["tolist", "tup_rev", "zero", "tup_more"],
+    "tupvar": ["tolist", "tup_s", "none"],
     "list_int": ["app_s", "zero"],
     "list_optint": ["app_s", "zero"],
     "dict_int": ["with_badval", "with_badkey", "zero"],
@@ -167,6 +173,10 @@ BAD_FNS = {
     "leaf": ["zero", "none"],
     "kitem": ["zero", "none", "kitem_key"],
 }
+FUNCS["tup_copy"] = lambda t: tuple(t)
+FUNCS["tup_more"] = lambda t: tuple(t) + (7,)
+FUNCS["tup_rev"] = lambda t: tuple(reversed(t))
+FUNCS["tup_s"] = lambda t: tuple(t) + ("s",)
 FUNCS["neg_one"] = lambda x: -1
 FUNCS["inc_odd"] = lambda x: (x // 2) * 2 + 1
 
@@ -479,6 +489,10 @@ def good_value(src, kind, small=False):
         return src.choice([0, 1, 10])
     if kind == "validated":
         return src.choice([0, 2, -4, 8])
+    if kind == "tup2":
+        return ["tuple", [src.choice([0, 1, 5]), src.choice(["", "a", "xy"])]]
+    if kind == "tupvar":
+        return ["tuple", [src.choice([0, 1, 2, 3]) for _ in range(src.randint(0, 3))]]
     if kind == "any":
         return src.choice([
             ["mod", "sys"],
@@ -571,6 +585,12 @@ def bad_values(kind):
         return [-1, "s", None, ["float", "2.5"], ["float", "1.0"], ["float", "10.0"], ["float", "0.0"]]
     if kind == "validated":
         return [1, "s", None, 3, ["float", "2.0"], ["float", "8.0"], ["float", "0.0"]]
+    if kind == "tup2":
+        return [["tuple", [1, 2]], ["tuple", ["a", "b"]], ["tuple", [1]], ["tuple", [1, "a", 2]], ["tuple", []],
+                ["list", [1, "a"]], 5, None, ["tuple", [["float", "1.0"], "a"]], ["tuple", [1, None]]]
+    if kind == "tupvar":
+        return [["tuple", [1, "s"]], ["list", [1]], 5, ["tuple", [None]], ["tuple", [["float", "2.0"]]],
+                ["tuple", [1, 2, ["list", [3]]]]]
     if kind == "any":
         return [["mod", "os"]]  # nothing is ill-typed for Any
     if kind == "list_int":
@@ -664,6 +684,10 @@ def annotation_for(kind, classes, faults):
         return bounded(int, ge=0)
     if kind == "validated":
         return validated(make_callback(faults, "validator", is_even_int), name="Even")
+    if kind == "tup2":
+        return typing.Tuple[int, str]
+    if kind == "tupvar":
+        return typing.Tuple[int, ...]
     if kind == "any":
         return typing.Any
     if kind == "list_int":
